@@ -93,7 +93,7 @@ def job_api(job: dict) -> dict:
 
     root = Path(job["root"])
     root.mkdir(parents=True, exist_ok=True)
-    files = projects.build(job["n"], job["cross"])
+    files = projects.build(job["n"], job["cross"], job.get("layout", "flat"))
     drive.write_tree(root, dict(files))
     (root / ".thailint.yaml").write_text(projects.BASE_CONFIG)
     os.chdir(root)
@@ -128,7 +128,7 @@ def job_cli(job: dict) -> dict:
     """`thailint <cmd> [--parallel] <targets>` as real subprocesses."""
     root = Path(job["root"])
     root.mkdir(parents=True, exist_ok=True)
-    files = projects.build(job["n"], job["cross"])
+    files = projects.build(job["n"], job["cross"], job.get("layout", "flat"))
     drive.write_tree(root, dict(files))
     (root / ".thailint.yaml").write_text(projects.BASE_CONFIG)
     targets = ["."] if job["target"] == "dir" else [rel for rel, _ in files]
@@ -284,13 +284,15 @@ def run(chk) -> None:
             jobs.append({"n": n, "k": k, "sched": [], "pool": "real"})
     for i, j in enumerate(jobs):
         j["cross"] = cross_for(j["n"])
+        j["layout"] = "samename" if i % 2 else "flat"
         j["root"] = str(scratch_root() / f"c07-{i}" / "proj")
     log(f"C07: {len(jobs)} API jobs")
     results = pool.run_jobs(job_api, jobs, nproc=max(2, NCPU // 2), timeout=180)
 
     records = []
     for job, res in zip(jobs, results):
-        case = {"n": job["n"], "k": job["k"], "pool": job["pool"], "sched": job["sched"]}
+        case = {"n": job["n"], "k": job["k"], "pool": job["pool"], "sched": job["sched"],
+                "layout": job["layout"]}
         if not res.ok:
             if res.hang:
                 chk.reject({"path": job["pool"], "clause": "Hang"}, case, "parallel run did not terminate")
@@ -326,6 +328,7 @@ def run(chk) -> None:
     for cmd in cmds:
         for n, target in ([(20, "dir"), (20, "files")] if quick else [(20, "dir"), (20, "files"), (15, "dir"), (41, "files")]):
             cjobs.append({"cmd": cmd, "n": n, "cross": cross_for(n), "target": target,
+                          "layout": "samename" if len(cjobs) % 2 else "flat",
                           "root": str(scratch_root() / f"c07cli-{len(cjobs)}" / "proj")})
     cres = pool.run_jobs(job_cli, cjobs, nproc=max(2, NCPU // 2), timeout=300)
     for job, res in zip(cjobs, cres):
